@@ -1,5 +1,6 @@
 import LettreVerif.Proofs.Timeouts
 import LettreVerif.Proofs.TransportBlocked
+import LettreVerif.Proofs.TransportInv
 import LettreVerif.Model.Timeouts
 /-!
 # C20 — A stalled server cannot block a send beyond the configured timeout
@@ -74,6 +75,16 @@ example :
       (p1.sendRaw none [str "x@y.z"] (str "m")).1.totalBlocked = 2 ∧
       (match (p1.sendRaw none [str "x@y.z"] (str "m")).2 with | .ok _ => true | _ => false) = true := by
   decide
+
+/-- **The stalled connection is never reused, the transport stays usable.** In a transport whose parked connections are
+    healthy (`PoolInv`: kept by every `send_raw` from the empty transport on — `C08.parked_connections_are_healthy`), after
+    a `send_raw`, whatever happened in it, everything parked is still unbroken and open: a connection on which a read
+    waited (`send_waits_at_most_twice`: it is then shut) is not among them, so the next send probes a healthy connection
+    or opens a new one. -/
+theorem after_send_raw_parked_are_open (p : Pool) (h : PoolInv p) (from? : Option Bytes) (to : List Bytes) (msg : Bytes) :
+    ∀ i ∈ (p.sendRaw from? to msg).1.idle,
+      ∃ c, (p.sendRaw from? to msg).1.conns[i]? = some c ∧ c.panic = false ∧ c.shut = false :=
+  fun i hi => parked_healthy _ (sendRaw_inv p from? to msg h) i hi
 
 /-- The tokio client has no deadline on reads: a peer that never greets makes `connect` wait on
     a read that nothing bounds (the finding `async-no-io-deadline`). -/
